@@ -168,6 +168,10 @@ type Case struct {
 	// Up sends the request as a file upload: field u_<ty>(a: .., file: $file), variables.file = null, one file attached
 	// (multipart request to the subgraph, graphql_datasource Source.LoadWithFiles).
 	Up bool `json:"up"`
+	// Pre puts a sibling field  zq: f_<ty>(a: "<text of the main literal>")  BEFORE the main field (custom scalar / ID
+	// positions, main literal without quotes): two extracted literals of the same type whose JSON texts differ only by the
+	// quotes must stay two variables (variable de-duplication in variables_extraction.go variableExists).
+	Pre bool `json:"pre"`
 }
 
 // V is the uniformly tagged value crossing Go -> TLC.
@@ -344,7 +348,15 @@ func buildRequest(c Case) (query string, vars string) {
 		}
 		q.WriteString("file: $file)")
 	} else {
-		fmt.Fprintf(&q, "{ f_%s", c.Ty)
+		q.WriteString("{ ")
+		if c.Pre && c.Ty != "M" && c.Expr.K != "omit" {
+			var t strings.Builder
+			renderExpr(&t, c.Expr)
+			if txt := t.String(); txt != "" && !strings.ContainsAny(txt, "\"\\$\n\r") {
+				fmt.Fprintf(&q, "zq: f_%s(a: \"%s\") ", c.Ty, txt)
+			}
+		}
+		fmt.Fprintf(&q, "f_%s", c.Ty)
 	}
 	if c.Up {
 		// arguments already written
